@@ -12,7 +12,7 @@ import (
 
 func init() {
 	register(&Prop{
-		ID: "C07",
+		ID:          "C07",
 		Explanation: "Decides the wiring between stripping and injecting identity headers: NewRequestHeaderInjector gives the same configured header list to the strip builder and the injector builder and composes alice.New(strip, inject) in that order, dropping the strip stage only when the builder returned nil; the strip builder collects header.Name exactly for entries without PreserveRequestValue and returns nil only for an empty collection; the strip handler calls the canonicalising http.Header.Del on the request's header for every collected name unconditionally before calling next; the upstream handler and the auth-only 202 writer are used only as the argument of p.headersChain.Then (whose result is what serves the request), headersChain has one writer, the constructor, fed from buildHeadersChain = alice.New(request injector, response injector); every value written by the injectors derives only from session.GetClaim(...), configured secret bytes, configured prefixes and constants, never from a header read; GetClaim returns no values for a nil session; the inject handlers inject scope.Session into the request's (response's) own header map before next; the legacy conversion sets PreserveRequestValue = !SkipAuthStripHeaders for every element after the last append.",
 		NotDecided:  "per-option value tables of the legacy flags (which claims each flag maps to); header-name normalisation by upstream servers (underscore/dash); values produced by GetClaim for each claim name.",
 		Run:         runC07,
@@ -95,7 +95,7 @@ func runC07(c *Ctx) {
 			at := p.End()
 			type iter struct {
 				preserve, known bool
-				appended       bool
+				appended        bool
 			}
 			// per loop-body visit: find the assumption on the preserve flag and whether an append of header.Name follows
 			for i, s := range p.Steps {
